@@ -556,6 +556,15 @@ def getitem(it, o, idx):
         if isinstance(idx, SliceVal):
             lo, hi, st = (_concrete_index(it, x) if x is not None else None for x in (idx.lo, idx.hi, idx.step))
             if any(x is None and y is not None for x, y in ((lo, idx.lo), (hi, idx.hi), (st, idx.step))):
+                if isinstance(o, (list, tuple)) and idx.lo is None and idx.step is None and is_sym(idx.hi):
+                    # xs[:k] with symbolic k: case split on the clamped value of k
+                    kt = z3int(idx.hi)
+                    if it.ctx.branch(kt < 0):
+                        raise Unsupported('negative symbolic slice bound')
+                    for c in range(len(o)):
+                        if it.ctx.branch(kt == c):
+                            return o[:c]
+                    return o[:]
                 raise Unsupported('symbolic slice of concrete sequence')
             return o[lo:hi:st]
         i = _concrete_index(it, idx)
@@ -1191,7 +1200,17 @@ def list_method(it, o: list, name):
             rev = k.get('reverse', False)
             keys = [it2.call(key, [x], {}) if key is not None else x for x in o]
             if any(isinstance(unbox(x), Sym) for kk in keys for x in (kk if isinstance(kk, tuple) else (kk,))):
-                raise Unsupported('sort with symbolic keys')
+                # stable insertion sort; every comparison of symbolic keys is a case split (A-sort: list.sort is stable)
+                if rev:
+                    raise Unsupported('reverse sort with symbolic keys')
+                order = []
+                for i in range(len(o)):
+                    pos = len(order)
+                    while pos > 0 and it2.decide(compare(it2, ast.Lt(), keys[i], keys[order[pos - 1]])):
+                        pos -= 1
+                    order.insert(pos, i)
+                o[:] = [o[i] for i in order]
+                return None
             order = sorted(range(len(o)), key=lambda i: keys[i], reverse=bool(rev))
             o[:] = [o[i] for i in order]
         return Native('list.sort', sort)
